@@ -185,6 +185,7 @@ Proof.
   - destruct (esz =? 1); [apply Forall_nil|]. destruct (esz =? 0); apply Forall_nil.
   - destruct (checked_sub (a_len a) addr); apply Forall_nil.
   - destruct (checked_add addr cnt); [|apply Forall_nil]. destruct (a_len a <? n); apply Forall_nil.
+  - (* OWriteToFd: never marks *) destruct (checked_sub (a_len a) addr); [|apply Forall_nil]. destruct fderr; apply Forall_nil.
   - (* ORefStore *) effs_done. apply weff_exact; [exact Hsz|exact Hinv|lia].
   - (* OArrStore *) unfold kind_ok in Hk. rewrite K in Hk.
     destruct (N.ltb_spec i n); [|apply Forall_nil]. effs_done. unfold eff_exact; cbn. rewrite H2.
